@@ -10,6 +10,7 @@ from . import ty as T
 
 IGNORED_CALL_ROOTS = {"logger", "logging"}
 SPEC_AXIOMS = {}
+OPAQUE_AXIOMS = {}  # definitional axioms of opaque spec functions: used only where a contract reveals them
 
 
 class CallMixin:
@@ -168,6 +169,19 @@ class CallMixin:
 
     def _minmax(self, node, st, is_max):
         args, kw = self.args_of(node, st)
+        if len(args) == 1 and "key" in kw and isinstance(args[0], VList) and isinstance(kw["key"], VFunc) and kw["key"].fn:
+            # min(L, key=f): an element of L (the first one) whose key is minimal
+            seq = args[0]
+            self.oblige(st, "safety", node, seq.n > 0, "min/max of empty sequence")
+            w = z3.Int(fresh_name("argm"))
+            i = z3.Int(fresh_name("mi"))
+            kf = kw["key"].fn
+            kw_ = kf([seq.get(w)], st, node)
+            ki = kf([seq.get(i)], st, node)
+            le = lex_lt(ki, kw_, False) if is_max else lex_lt(kw_, ki, False)
+            st.assume(z3.And(0 <= w, w < seq.n))
+            st.assume(z3.ForAll([i], z3.Implies(z3.And(0 <= i, i < seq.n), le)))
+            return seq.get(w)
         if len(args) == 1:
             seq = args[0]
             if isinstance(seq, VTuple):
@@ -218,6 +232,20 @@ class CallMixin:
             self.assumptions.add("int(str) modelled as the partial inverse of the str(int) printer; ValueError when not a numeral")
             return VInt(self._int_unprinter(v.t))
         self.unsupported(node, "int() of %s" % v.ty)
+
+    def bi_unchanged_except(self, node, st):
+        """unchanged_except(new, old, 'f1', ...): every declared field other than the named ones is identical (term equality)"""
+        a = self.ev(node.args[0], st)
+        b = self.ev(node.args[1], st)
+        if isinstance(a, VOpt):
+            a = a.v
+        if isinstance(b, VOpt):
+            b = b.v
+        if not (isinstance(a, VRec) and isinstance(b, VRec) and a.ty.rname == b.ty.rname):
+            self.unsupported(node, "unchanged_except on %s / %s" % (a.ty, b.ty))
+        skip = {x.value for x in node.args[2:]}
+        cs = [pack(a.f[f]) == pack(b.f[f]) for f in sorted(a.f) if f not in skip]
+        return VBool(zand(*cs))
 
     def bi_new_stream(self, node, st):
         if node.args:
@@ -317,7 +345,18 @@ class CallMixin:
             s = VSet(ANY, None, z3.IntVal(0))
             s.empty_literal = True
             return s
-        self.unsupported(node, "set(iterable)")
+        v = self.ev(node.args[0], st)
+        if isinstance(v, VSet):
+            return v
+        if isinstance(v, VList) and not getattr(v, "empty_literal", False):
+            k = z3.Const(fresh_name("sk"), sort_of(v.ety))
+            j = z3.Int(fresh_name("sj"))
+            ns = VSet(v.ety, z3.Lambda([k], z3.Exists([j], z3.And(0 <= j, j < v.n, z3.Select(v.a, j) == k))), z3.Int(fresh_name("card")))
+            st.assume(z3.And(ns.c >= 0, ns.c <= v.n))
+            for fact in self.card_facts(ns):
+                st.assume(fact)
+            return ns
+        self.unsupported(node, "set(%s)" % v.ty)
 
     def bi_dict(self, node, st):
         if not node.args:
@@ -401,6 +440,8 @@ class CallMixin:
                 res.append(isinstance(v, VList))
             elif n == "float":
                 res.append(isinstance(v, VReal))
+            elif n in T.RECORDS or n in self.class_home:
+                res.append(isinstance(v, VRec) and (v.ty.rname == n or n in self.bases_of(v.ty.rname)))
             else:
                 self.unsupported(node, "isinstance(%s)" % n)
         return VBool(any(res))
@@ -560,6 +601,30 @@ class CallMixin:
             ns = VSet(s.kty, z3.Store(s.m, k, z3.BoolVal(True)), z3.If(z3.Select(s.m, k), s.c, s.c + 1))
             self.mutate(f.value, ns, st)
             return VNone()
+        if attr == "update":
+            x = args[0]
+            if getattr(s, "empty_literal", False):
+                if not isinstance(x, VList):
+                    self.unsupported(node, "set.update of %s" % x.ty)
+                s = zero_value(TSet(x.ety))
+            if isinstance(x, VSet):
+                k = z3.Const(fresh_name("uk"), sort_of(s.kty))
+                nm = z3.Lambda([k], z3.Or(z3.Select(s.m, k), z3.Select(x.m, k)))
+                hi = s.c + x.c
+            elif isinstance(x, VList):
+                k = z3.Const(fresh_name("uk"), sort_of(s.kty))
+                j = z3.Int(fresh_name("uj"))
+                nm = z3.Lambda([k], z3.Or(z3.Select(s.m, k), z3.Exists([j], z3.And(0 <= j, j < x.n, z3.Select(x.a, j) == k))))
+                hi = s.c + x.n
+            else:
+                self.unsupported(node, "set.update of %s" % x.ty)
+            nc = z3.Int(fresh_name("card"))
+            ns = VSet(s.kty, nm, nc)
+            st.assume(z3.And(nc >= s.c, nc <= hi))
+            for fact in self.card_facts(ns):
+                st.assume(fact)
+            self.mutate(f.value, ns, st)
+            return VNone()
         if attr == "discard":
             k = pack(coerce(args[0], s.kty))
             ns = VSet(s.kty, z3.Store(s.m, k, z3.BoolVal(False)), z3.If(z3.Select(s.m, k), s.c - 1, s.c))
@@ -603,6 +668,13 @@ class CallMixin:
             return parts
         self.unsupported(node, "str method " + attr)
 
+    def card_facts(self, s):
+        """facts about the cardinality of a finite set that the code can observe through len(): emptiness and '> 1'"""
+        x = z3.Const(fresh_name("cx"), sort_of(s.kty))
+        y = z3.Const(fresh_name("cy"), sort_of(s.kty))
+        return [(s.c > 0) == z3.Exists([x], z3.Select(s.m, x)),
+                (s.c > 1) == z3.Exists([x, y], z3.And(x != y, z3.Select(s.m, x), z3.Select(s.m, y)))]
+
     def mutate(self, target_node, newval, st):
         """In-place mutation of the container denoted by target_node (reference semantics via write-back)."""
         if self.spec_depth > 0:
@@ -645,7 +717,7 @@ class CallMixin:
         # a spec function applied to an optional value under a guard (x is not None and f(x)): use the payload
         _tys = [T.parse_type(t) for t in s.arg_types]
         args = [a.v if isinstance(a, VOpt) and not isinstance(t, TOpt) else a for a, t in zip(args, _tys)]
-        if not getattr(s, "recursive", None):
+        if not getattr(s, "recursive", None) and not s.opaque:
             if getattr(s, "recursive", None) is None:
                 s.recursive = any(isinstance(n, ast.Call) and isinstance(n.func, ast.Name) and n.func.id == s.name
                                   for n in ast.walk(s.node))
@@ -685,7 +757,11 @@ class CallMixin:
         if axiom_mode:
             # definitional axiom, instantiated by E-matching on applications of f (Boogie style)
             app = f(*consts)
-            SPEC_AXIOMS[s.name] = z3.ForAll(consts, app == pack(coerce(body, rty)), patterns=[app])
+            ax = z3.ForAll(consts, app == pack(coerce(body, rty)), patterns=[app])
+            if s.opaque:
+                OPAQUE_AXIOMS[s.name] = ax
+            else:
+                SPEC_AXIOMS[s.name] = ax
         else:
             z3.RecAddDefinition(f, consts, pack(coerce(body, rty)))
 
@@ -742,7 +818,12 @@ class CallMixin:
             else:
                 st.assume(z3.Implies(zand(*pre), zand(*post)))
             return
-        st.assume(self.spec_bool(src, st, extra))
+        # any other hint is a proof step ("assert"): it must be proved from the current path condition before it is assumed
+        g = self.spec_bool(src, st, extra)
+        self.obligations.append(Obligation(self.cur_name, "hint", "H%d" % self.hint_no, st.conds(), g, "proof step: " + src,
+                                           self.path_no, self.inputs, 0))
+        self.hint_no += 1
+        st.assume(g)
 
     # ---- user functions ------------------------------------------------------------------------------------
     def callee_def(self, c):
